@@ -39,8 +39,8 @@ FRONTIER = ["std/no_std and debug/release independence: no model-level statement
             "x86 intrinsics _addcarry_u32/u64, _subborrow_u32/u64: modelled from the Intel SDM (Model/Arch/Prelude.lean), executed natively by the 64-bit builds",
             "arch/*/ntt.rs (NTT prime tables per word size): owned by C01's multiplication model; only the file selection is regenerated here",
             "serde_json / postcard themselves (modelled from their sources)",
-            "clause `reject malformed input with an error`: binary decoders proved (…_decode_canonical); text path of floats has one recorded finding "
-            "(exponent literal at the edge of isize: overflow instead of an error)"]
+            "clause `reject malformed input with an error`: binary decoders proved (…_decode_canonical); the text path of floats (exponent literal at "
+            "the edge of isize: an error since /repo 5997fe0) is compared case by case, not proved"]
 RULE = ("clause 1: the case generators of C01, C02, C09, C05, C07, C08, C06, C12, C13, C03, C10, C04, C14 (integer ring / division / "
         "bits / comparison / text / conversions / number theory / modular / float and rational arithmetic / cross-type), sampled per "
         "run (+ operands sized in 32-bit words around the word-count thresholds), wrapped as `cfgall <group>/<op> …`: every configuration of the run evaluates the case, the front demands byte-"
@@ -55,7 +55,9 @@ RULE = ("clause 1: the case generators of C01, C02, C09, C05, C07, C08, C06, C12
         "double word for W = 32 and 64 (least, least+1, greatest, random: the fixed digit buffers of PreparedWord / PreparedDword); 65..131-bit "
         "integers -> f32/f64 at the rounding boundary.  Foreign ops unknown to exec_cfg / drive_cfg are probed and left out (logged); extreme-argument "
         "cases (>= 2^31) whose result size is proportional to the argument (model refuses or does not answer in 4 s) are left out (resource limits "
-        "counted in words differ by word size: AllocTooMuch vs the allocator's OutOfMemory); Debug text and s32.* host-f32 probes are not values. "
+        "counted in words differ by word size: AllocTooMuch vs the allocator's OutOfMemory); Debug text and s32.* host-f32 probes are not values; float types whose base is not a `Word` of a 32-bit-word build (base >= 2^32), "
+        "`f.norm` of a significand that is a double word in one build only, and `qp.pow` / `qp.prog` (exponents placed on the 64-bit allocation guard) "
+        "are left out. "
         "Non-trivial := not a `cfg.self`"
         " probe; distinct := distinct case lines.")
 EXPLANATION = ("Theorems: word-size independence of the integer ops as corollaries of the all-W refinement theorems of "
@@ -225,128 +227,37 @@ def foreign_uniform(args, impl, model):
 
 # ---------------------------------------------------------------------------------- input classes of the C19 findings
 
-def _inner(args, op):
-    return args if op == "cfgall" else args[1:]
-
-def _pc_varint(b, i):
-    v = 0
-    for k in range(10):
-        if i >= len(b):
-            return None
-        x = b[i]; i += 1
-        v |= (x & 0x7F) << (7 * k)
-        if x < 0x80:
-            if k == 9 and x > 1:
-                return None
-            return v, i
-    return None
-
-def _pc_int(b, i, signed_):
-    r = _pc_varint(b, i)
-    if r is None:
-        return None
-    n, i = r
-    if i + n > len(b):
-        return None
-    m = int.from_bytes(b[i:i + n], "little")
-    return ((-m if (signed_ and n % 2 == 1) else m), i + n)
-
-def _json_text(b):
-    # the first JSON value of the input (serde_json hands the string to the visitor before it looks
-    # at what follows it)
-    try:
-        t, _ = json.JSONDecoder().raw_decode(b.decode("utf-8").lstrip(" \t\n\r"))
-    except Exception:
-        return None
-    return t if isinstance(t, str) else None
-
-def kf(kind, args, op):
-    """input class of the recorded C19 finding (text-path exponent overflow), decided from the *input*
-    (the stream), see known_findings.jsonl; the classes of the serde defects fixed in 78fd274 / 9f519ab
-    (zero denominator, infinity, precision, binary exponent overflow) are gone"""
-    a = _inner(args, op)
-    if not a:
-        return False
-    iop = a[0]
-    try:
-        if kind == "fexp" and iop in ("de.r", "de.f") and a[1] == "json":
-            t = _json_text(bytes.fromhex(a[3][2:]))
-            # an exponent literal at the edge of isize: normalisation (`exponent += shift`) or the
-            # fraction adjustment (`exponent -= fract_digits`) leaves the isize range
-            return t is not None and re.search(r"[eE@pPbBhHoO][+-]?9223372036854775[0-9]{3}$", t) is not None
-        if kind == "fexp" and iop.startswith(("text/", "float/")):
-            # the same text handed to the float parser by an op of C08 / C03 (`text/f.parse …`): same input class
-            for x in a[1:]:
-                if x.startswith("s:"):
-                    try:
-                        t = bytes.fromhex(x[2:]).decode("utf-8")
-                    except Exception:
-                        continue
-                    if re.search(r"[eE@pPbBhHoO][+-]?9223372036854775[0-9]{3}$", t) is not None:
-                        return True
-            return False
-    except Exception:
-        return False
-    return False
+# (the input classes of the C19 findings repaired in /repo - serde zero denominator / infinity / precision / binary exponent
+# overflow (78fd274, 9f519ab), text-path exponent overflow (5997fe0), usize / isize arithmetic on extreme precisions and exponents
+# (5768014, ee43486), convert_base `exponent * n` (1349a4b) - are gone: their witnesses stay in corpus/C19 and must agree)
 
 
-def kf_prec_overflow(args, impl, model):
-    """input class of the C19 finding `unchecked usize / isize arithmetic on an extreme precision or exponent`: a float
-    (float / cross / conv / text group) op with a precision or an exponent of magnitude >= 2^62 among its arguments (so
-    that `2 * precision`, `3 * precision`, `precision + digits`, `exponent + digits`, `exponent * n` leave usize / isize);
-    observed as: builds with overflow checks panic `attempt to add/subtract/multiply with overflow` (or a debug
-    assertion) in float/src, builds without go on with the wrapped value (and return a number or fail to allocate).
-    Never a difference between two returned values: all `ok` answers of the configurations must coincide."""
+def kf_const_prec(args, impl, model):
+    """input class of the C19 finding `FBig::from_parts_const infers a precision that depends on the word size`: `bits/f.norm d:<B>
+    <signif> d:<exp>` with B not a power of two, the significand m (factors of B removed) below 2^64 with d digits and
+    B^d > 2^64 - 1: the digit loop `while let Some(next) = pow.checked_mul(B)` stops one short when B^d does not fit the
+    DoubleWord (u64 with 32-bit words), so 32-bit-word builds answer precision d - 1 and 64-bit-word builds d.  Only the `pc:`
+    field may differ, and exactly like that."""
     try:
         inner = args if (args and "/" in args[0]) else args[1:]
-        if len(inner) < 2 or not inner[0].startswith(("float/", "cross/", "conv/", "text/")):
+        if len(inner) != 4 or inner[0] != "bits/f.norm" or not impl.startswith("config-disagree "):
             return False
-        mags = []
-        for a in inner[1:]:
-            if a.startswith("f:"):
-                for f in a.split(":")[3:]:
-                    if f.lstrip("-").isdigit():
-                        mags.append(abs(int(f)))
-            elif a.startswith("d:") and a[2:].lstrip("-").isdigit():
-                mags.append(abs(int(a[2:])))
-        if not mags or max(mags) < 2 ** 62:
+        B = int(inner[1][2:]); m = abs(int(inner[2], 16))
+        if B < 3 or B >= 2 ** 32 or B & (B - 1) == 0 or m == 0:
             return False
-        if not impl.startswith("config-disagree ") or "float/src/" not in impl:
-            return False
-        if "_with_overflow" not in impl and "assertion_failed" not in impl:
+        while m % B == 0:
+            m //= B
+        d = digits_in(m, B)
+        if m >= 2 ** 64 or B ** d < 2 ** 64:
             return False
         parts = [p.split("=", 1) for p in impl[len("config-disagree "):].split(" || ")]
-        if any(len(p) != 2 for p in parts):
-            return False
-        answers = [a for _, a in parts]
-        oks = set(a for a in answers if a.startswith("ok "))
-        rest = [a for a in answers if not a.startswith("ok ")]
-        return len(oks) <= 1 and all(a.startswith(("panic ", "forms-disagree ")) for a in rest)
-    except Exception:
-        return False
-
-
-def kf_conv_exp_overflow(args, impl, model):
-    """input class of the C19 finding `exponent * log2(B)` in convert_base: to_f32 / to_f64 of a float in base 4, 8, 16
-    or 32 whose exponent times log2(B) (plus the bits that normalisation moves into the exponent) leaves isize"""
-    try:
-        inner = args if (args and "/" in args[0]) else args[1:]
-        if len(inner) < 4 or not inner[0].startswith("conv/"):
-            return False
-        op = inner[0].split("/", 1)[1]
-        if op.endswith(".code"):
-            op = op[:-5]
-        if op not in ("f.to_f32", "f.to_f64", "fr.to_f32", "fr.to_f64"):
-            return False
-        lg = {"d:4": 2, "d:8": 3, "d:16": 4, "d:32": 5}.get(inner[1])
-        if lg is None or not inner[-1].startswith("d:"):
-            return False
-        e = int(inner[-1][2:])
-        if abs(e) * lg < 2 ** 63 - 4096:
-            return False
-        if not impl.startswith("config-disagree ") or "float/src/" not in impl or "_with_overflow" not in impl:
-            return False
-        return True
+        rest = set()
+        for conf, ans in parts:
+            f = ans.split(" ")
+            if len(f) != 5 or f[0] != "ok" or f[4] != "routes-agree" or f[3] != "pc:%d" % (d - 1 if conf.startswith("w32-") else d):
+                return False
+            rest.add((f[1], f[2]))
+        return len(rest) == 1
     except Exception:
         return False
 
@@ -483,6 +394,57 @@ def gen_serde_values(rng, tier):
             for m in ("pc", "json"):
                 yield Case("cfgall", ["sd.rinf", m, dec(B), sg])
                 yield Case("cfgall", ["sd.finf", m, dec(B), sg])
+
+
+def gen_float_full_precision(rng, tier):
+    """FBig with a limited precision that is exactly used up (digits == precision) and a significand just below a power of the base
+    (B^k - c, small c; k = 24 / 53 at base 2 are f32::MAX / f64::MAX): the decoder's test `digits > precision`
+    (float/src/third_party/serde.rs fbig_from_fields) must count digits exactly - a log2 estimate (`digits_ub`) reaches k + 1 on
+    these.  Binary medium (where the precision is a field), the JSON text for balance, and the raw postcard stream."""
+    ks = list(range(1, 50)) + [53, 64, 65, 100, 128, 129, 200, 256]
+    for B in FLOAT_BASES:
+        for k in ks:
+            for c in (1, 2, 3, B + 1):
+                s = B ** k - c
+                if s <= 0 or s % B == 0:
+                    continue
+                d = digits_in(s, B)
+                e = rng.choice([0, 1, -1, -k, -k + 1, 7, -7, 104, 971, -1074, 300, -300])
+                if rng.random() < 0.5:
+                    s = -s
+                yield Case("cfgall", ["sd.f", "pc", dec(B), hx(s), dec(e), dec(d)])
+                yield Case("cfgall", ["de.f", "pc", dec(B), sb(pc_i(s) + varint(zigzag(e)) + varint(d))])
+                if rng.random() < 0.3:
+                    yield Case("cfgall", ["sd.f", "json", dec(B), hx(s), dec(e), dec(d)])
+                if d > 1 and rng.random() < 0.3:     # one digit too few: must be refused
+                    yield Case("cfgall", ["de.f", "pc", dec(B), sb(pc_i(s) + varint(zigzag(e)) + varint(d - 1))])
+
+
+def gen_json_control_digits(rng, tier):
+    """text decoding (JSON strings) with the bytes that a case fold `byte | 0x20` maps onto digits and letters: 0x10..0x19 (-> '0'..'9')
+    and the neighbours of the folded ranges (0x0f, 0x1a, '@', '`', '[', '{'), as \\u00XX escapes in every digit position of the integer,
+    rational and float grammars: every one of them must be refused (integer/src/radix.rs digit_from_ascii_byte)."""
+    def emit(t, stream):
+        if isinstance(t, tuple):
+            return Case("cfgall", ["de." + t[0], "json", dec(t[1]), sb(stream)])
+        return Case("cfgall", ["de." + t, "json", sb(stream)])
+    def js(text):
+        out = bytearray(b'"')
+        for ch in text:
+            o = ord(ch)
+            if o < 0x20 or ch in '"\\':
+                out += ("\\u%04x" % o).encode()
+            else:
+                out += ch.encode()
+        return bytes(out + b'"')
+    odd = [chr(x) for x in range(0x0f, 0x1b)] + ["@", "`", "[", "{"]
+    types = ["u", "i", "q", "x"] + [("r", B) for B in FLOAT_BASES] + [("f", B) for B in FLOAT_BASES]
+    for ch in odd:
+        texts = [ch, "1" + ch, ch + "3", "-" + ch, "0x" + ch, "1_" + ch, "1/" + ch, ch + "/2", "1." + ch, ch + ".5", ch + "e5", "1e" + ch, "1e-" + ch,
+                 "0x1." + ch + "p3", ch * 3]
+        for text in texts:
+            for t in types:
+                yield emit(t, js(text))
 
 
 def mutate(rng, b):
@@ -676,7 +638,9 @@ def gen_decode_json(rng, tier):
 # (`s32.*`: C10's probes of the host's binary32 arithmetic and of f32 log2 bounds - not values of dashu numbers;
 # `u.dbg` / `i.dbg`: `{:?}` prints all digits of an inline value and `head..tail` of a heap value - which one a 65..128-bit
 # number is depends on the word size by design; it is a diagnostic of the representation, not a value)
-W_DEPENDENT = re.compile(r"^(cd\.|w\.|k\.|nm\.)|ismultipleconst|frompartsconst|routes|hashfeed|^c\.ones$|^[ui]\.dbg$|^s32\.")
+# `qp.pow`, `qp.prog` (C04, round 6): driven at exponents placed around Buffer::MAX_CAPACITY of the 64-bit-word build (a limit counted in words);
+# with 32-bit words the same exponents pass the guard and reach the allocator - a resource limit, not a value (owner's request)
+W_DEPENDENT = re.compile(r"^(cd\.|w\.|k\.|nm\.)|ismultipleconst|frompartsconst|routes|hashfeed|^c\.ones$|^[ui]\.dbg$|^s32\.|^qp\.(pow|prog)$")
 LOG2B = re.compile(r"log2b")                       # answers differ between the std and the no_std estimator
 NOSTD_LOG2B = ("p.log2b", "p.log2brange", "p.flog2b", "u.log2b")   # the ones C12's driver models for the no_std build
 
@@ -792,8 +756,14 @@ def _drop_model_hangs(name, group, flat):
         path = os.path.join(wd, "cases.%d.txt" % j)
         core.write_cases(path, [Case("cfgall", [group + "/" + flat[i][0]] + list(flat[i][1])) for i in sh])
         got = core.run_side(model_exe, path, len(sh), 4, "model")
-        return [sh[k] for k in range(len(sh))
-                if got.get(k, "missing").startswith(("hang", "crash", "missing", "panic AllocTooMuch", "panic OutOfMemory"))]
+        def refused(ans):
+            # (round 6: the `bits` chain has C09's huge-count front end - at one word size the request exceeds MAX_CAPACITY
+            # (`panic AllocTooMuch`), at the other it stays below the guard and the driver declines to build the number
+            # (`bad-op … huge-count-below-the-capacity-guard`): the same resource-limit class as a hang)
+            return (ans.startswith(("hang", "crash", "missing", "panic AllocTooMuch", "panic OutOfMemory"))
+                    or "huge-count-below-the-capacity-guard" in ans
+                    or (ans.startswith("required: the same answer") and ("=panic AllocTooMuch" in ans or "=panic OutOfMemory" in ans)))
+        return [sh[k] for k in range(len(sh)) if refused(got.get(k, "missing"))]
     try:
         with ThreadPoolExecutor(max_workers=jobs) as ex:
             for r in ex.map(do, range(jobs)):
@@ -807,6 +777,26 @@ def _drop_model_hangs(name, group, flat):
         core.log("C19: %d extreme-argument cases of %s (of %d) refused (AllocTooMuch) or not answered by the model within 4 s (result "
                  "size proportional to the argument), left out of the replay: ops %s" % (len(bad), name, len(idx), " ".join(sorted(set(flat[i][0] for i in bad)))))
     return [x for i, x in enumerate(flat) if i not in bad]
+
+
+def _word_typed(op, args):
+    """`f.norm d:<B> <signif> d:<exp>` (C05): the base is a `Word` const generic - a base >= 2^32 does not exist in a build with
+    32-bit words; and the op probes `FBig::from_parts_const` only when |signif| fits a `DoubleWord` of the build (prints `pc:-`
+    otherwise), so for 2^64 <= |signif| < 2^128 the answer is about the word size by construction of the op.  Everything else
+    (|signif| < 2^64, base < 2^32) is replayed: there the inferred precision must not depend on the word size."""
+    try:
+        if op == "f.norm":
+            return int(args[0][2:]) >= 2 ** 32 or abs(int(args[1], 16)) >= 2 ** 64
+        # a float argument `f:<B>:…` in a base >= 2^32, or a target base >= 2^32 of with_base / with_base_and_precision (C08, round 6:
+        # bases near the top of the 64-bit Word range): the base is a `Word` const generic, such a type does not exist with 32-bit words
+        for a in args:
+            if a.startswith("f:") and int(a.split(":")[1]) >= 2 ** 32:
+                return True
+        if op.startswith("f.with_base") and args and args[0].startswith("d:") and int(args[0][2:]) >= 2 ** 32:
+            return True
+    except Exception:
+        return True
+    return False
 
 
 def wrap_other(rng, tier, confs):
@@ -832,6 +822,8 @@ def wrap_other(rng, tier, confs):
             if op == "ns" and len(args) >= 2:        # C12's own no_std replay: take the inner op, every configuration asks it itself
                 op, args = args[1], args[2:]
             if W_DEPENDENT.search(op) or any(a.startswith("w:") or "words:" in a for a in args):
+                continue
+            if _word_typed(op, args):
                 continue
             if any(len(a) <= 6 and "dbg" in a for a in args):      # `{:?}` / `{:#?}` elide digits by word-sized chunks: about the representation
                 continue
@@ -1021,6 +1013,8 @@ def generate(rng, tier):
     yield from gen_serde_values(rng, eff)
     yield from gen_decode_pc(rng, eff)
     yield from gen_decode_json(rng, eff)
+    yield from gen_float_full_precision(rng, eff)
+    yield from gen_json_control_digits(rng, eff)
     yield from words32(rng, eff)
     yield from gen_conv_directed(rng, eff)
     yield from gen_text_directed(rng, eff)
